@@ -285,6 +285,7 @@ cpa('cache_full_race', ['ALLOC1(0);ALLOC1(1);FREE1(0);FREE1(1)', 'ALLOC1(0);FREE
 cpa('batch', ['ALLOC2(0);FREE2(0)', 'ALLOC1(0);FREE1(0)'], cap=2, tiers=TH, qcap=1500, timeout=7200)
 cpa('keep_one', ['ALLOC1(0);ALLOC1(1);FREE1(0)', 'ALLOC1(0);FREE1(0)'], cap=2, tiers=TH, qcap=1500, timeout=7200)
 S('pa_seq_batch_wraps_ring', 'pagealloc/cpa_seq.cpp', {'assert': 'C17'}, extra=PAX, models=['sc'], bound=16)
+S('pa_seq_partial_batch_small', 'pagealloc/cpa_seq.cpp', {'assert': 'C17'}, extra=PAX, models=['sc'], bound=16, defs=['VF_PARTIAL=1', 'VF_CMAX=2', 'VF_NMAX=3', 'VF_BMAX=1'])
 S('pa_seq_partial_batch', 'pagealloc/cpa_seq.cpp', {'assert': 'C17'}, extra=PAX, models=['sc'], bound=16, defs=['VF_PARTIAL=1'], tiers=DEV)      # symbolic cache fill x batch size x refill: exploration > 7 min, not validated in time: dev tier
 cpa('one_thread_cycle', ['ALLOC1(0);FREE1(0);ALLOC1(1);FREE1(1)'], cap=1)
 
@@ -412,7 +413,7 @@ LEVEL_TEXT = {
  'C14': 'Real IdAllocator<uint32_t> (pop vs pop-push-pop ABA, mint race, reuse when free values exist, symbolic alloc/free history of 4 ops vs reference set incl. for_each and end()) and DepositBox (2-3 takers one winner, stale id never matches across slot reuse). ThreadId across three sequential thread generations in two id spaces: stable within a thread, the value of an exited thread is reused with a new version, end() does not grow, for_each reports exactly the live thread. Concurrent thread exit/creation is outside.',
  'C15': 'Real ConcurrentTransientTopic<two-word payload, VS>: publish / publish_n / close vs 1-2 consumers (consume, consume(2)), two publishers; exact sequence then end marker, payload fully visible, STUCK query for consumers. clear()/reuse outside.',
  'C16': 'Real ConcurrentExecutionQueue with a harness Executor (inline / parked consumer): items consumed exactly once, never two consumers at once (plain-access detector), no item stranded once every accepted consumer has run. join() and two sequential items are thorough-tier; concurrent refused-launch races are outside (built, not finishing, not registered; the sequential symbolic refusal schedule covers the refusal logic).',
- 'C17': 'Real CachedPageAllocator over a recording upstream: ownership detector (a page is never held twice / returned upstream twice / returned while held) and conservation upstream_out - upstream_in == held + cached. ObjectPool: strict mode with one injected object and two users (pop and try_pop; exclusive holder, recycler once per return, conservation, STUCK: the blocked pop resumes), auto-creating mode with a prefilled pool (created - destroyed == pooled, recycler once per return; sc only). Batch/counting allocators outside.',
+ 'C17': 'Real CachedPageAllocator over a recording upstream: ownership detector (a page is never held twice / returned upstream twice / returned while held) and conservation upstream_out - upstream_in == held + cached. ObjectPool: strict mode with one injected object and two users (pop and try_pop; exclusive holder, recycler once per return, conservation, STUCK: the blocked pop resumes), auto-creating mode with a prefilled pool (created - destroyed == pooled, recycler once per return; sc only). Sequential: a batch of n <= 3 pages requested while the cache holds c <= 2 (partly served from the cache, the rest from upstream), then returned as one batch into a cache with room for only part of it (c, n, refill symbolic): identities, conservation, everything back upstream once at destruction. Batch/counting allocators outside.',
  'C18': 'Sequential mode on the real ConcurrentTransientHashSet: default / sized(4,16) construction, N inserts with duplicates (N symbolic <= 6, and exactly 34 to cross two chained tables), then size/empty/iteration/find/contains vs a reference bitmap. Plus: a COPY of a set grown to 20 elements / of a sized set; histories of 20 (chained tables) or 5 inserts followed by clear / move-construction / move-assignment over a non-empty set / swap (reserve and rehash of the sized set in the thorough tier) and a further symbolic insert, the moved-from and swapped-with sets checked too. reserve/rehash of a chained set and symbolic insert counts above 8 are outside.',
  'C07': 'Real ThreadPoolExecutor (started with 0 OS threads; a harness thread runs the real keep_execute() worker loop): submit()/execute() of 1-2 tasks, the STOP markers of stop(), join == worker returned; every accepted task ran exactly once on a thread that reports is_running_in(), before the stopper passes its join; STUCK query on the futex-based global queue. Sequential re-entrant scenarios run the real start()/stop()/keep_execute()/keep_balance() with std::thread played by the harness: a task that spawned a child into its local queue is pre-empted while another thread stops the pool and the balance thread performs its last steal pass (local capacity 0/2, balance thread on/off, symbolic spawn): nothing accepted is lost behind the STOP tokens. Owner pop vs steal: the real worker loop on a local queue prefilled the way enqueue_task does, racing a harness thread that performs the own try_pop call of the steal loop<true,false> on it - the task runs exactly once (never moved out twice). Work stealing between 2 full workers is thorough-tier; concurrent tasks-spawning-tasks and the new-thread executor are outside.',
  'C11': 'Sequential mode: real babylon serialization traits + BABYLON_COMPATIBLE aggregates over the real protobuf coded-stream inline code, with a model of the out-of-line libprotobuf stream functions (harness/serial/pbmodel.cpp, validated against the real library by native replay of every witness): round trip and predicted size for ALL values of uint64 / int32+bool / nested aggregate, varint wire compatibility with a reference encoder, unknown fields of every wire type skipped, arbitrary input bytes up to 4 (terminates, no read past the input, success => re-serialises and re-parses to itself); a nested aggregate with a payload of 121..132 bytes (symbolic last field) across the one/two-byte length-prefix boundary: predicted size == bytes produced, own output parses back, following field found. The serialized bytes re-parsed through a ZeroCopyInputStream-backed CodedInputStream in symbolic chunk sizes (1..3), with and without an enclosing limit, give the same value (the stream model follows coded_stream.cc and is validated against the real library on every run). Strings, containers, smart pointers, protobuf messages, hostile stream-backed inputs outside.',
